@@ -75,6 +75,14 @@ fn base_programs() -> Vec<&'static str> {
         "output r = to_string(1.5) + to_string([1, {a: 2}])\noutput n = to_number(\"2.5\")",
         "t = typeof(sum)\noutput r = [t, typeof(x => x), arity((a, b?) => a)]",
         "output r = 1 / 0\noutput q = [0 / 0] == [0 / 0]",
+        // failing calls of built-ins that read several arguments before they fail: nothing of a failed call
+        // may show in a later program that calls the same built-in
+        "output r = median([100, 200, \"x\"])",
+        "output r = percentile([1000000, true], 50)",
+        "output r = format(1e21, 98765.4321, 0.00001)",
+        "output r = [sum(1, 2, \"a\")]",
+        "output r = sort_by([3, 1, 2], 5)\noutput q = unique([1, [2], nope])",
+        "output a = format(\"{} {}\", 7, 8)\noutput m = median([1, 2, 3])\noutput p = percentile([4, 2], 0)\noutput s = sum(1, 2)",
         // look-ups by spellings that differ only in case (exact, other exact, ambiguous, unknown): a memo
         // keyed by a normalised spelling would let one program decide another's answer
         "output r = convert(1, \"kB\", \"bits\")",
@@ -699,7 +707,7 @@ pub fn run(ctx: &Ctx, replay: Option<&J>) -> i32 {
     finish(
         ctx,
         "model_checking",
-        "states = histories of <= 2 earlier programs (39-program alphabet) and iteration-order answer scripts with <= 2 deviations at the choice points each program reaches (H1 seam: captured scopes and environments); transitions = one whole-program evaluation in a fresh session, observed as status + outputs JSON + all bindings and compared with the empty-history / default-order run; plus every generated expression (every kind, parent x child spines over shared list / record / string / function / number leaves, built-ins applied to shared values) evaluated twice with all earlier bindings re-checked, operand immutability for strings / lists / records of 10..5000 (thorough 1..70000) bytes or elements under 42 operators and built-ins (the operand bound last, evaluated twice), let-abstraction of every assignment-free sub-expression, and abstraction of a repeated sub-expression (15 values incl. NaN-carrying containers x 38 two-/three-hole contexts: the occurrences become one heap object) and of one of two different sub-expressions (29 values incl. one-character strings sharing a UTF-8 lead byte x 7 contexts x 3 orders of creation); the real binary repeated in fresh processes; distinct = histories, (program, script) pairs and expressions",
+        "states = histories of <= 2 earlier programs (45-program alphabet) and iteration-order answer scripts with <= 2 deviations at the choice points each program reaches (H1 seam: captured scopes and environments); transitions = one whole-program evaluation in a fresh session, observed as status + outputs JSON + all bindings and compared with the empty-history / default-order run; plus every generated expression (every kind, parent x child spines over shared list / record / string / function / number leaves, built-ins applied to shared values) evaluated twice with all earlier bindings re-checked, operand immutability for strings / lists / records of 10..5000 (thorough 1..70000) bytes or elements under 42 operators and built-ins (the operand bound last, evaluated twice), let-abstraction of every assignment-free sub-expression, and abstraction of a repeated sub-expression (15 values incl. NaN-carrying containers x 38 two-/three-hole contexts: the occurrences become one heap object) and of one of two different sub-expressions (29 values incl. one-character strings sharing a UTF-8 lead byte x 7 contexts x 3 orders of creation); the real binary repeated in fresh processes; distinct = histories, (program, script) pairs and expressions",
         true,
         Some((states, transitions, transitions)),
     )
